@@ -100,7 +100,8 @@ static void check_unreadable(int kind, int op, std::vector<V>& out) {
 static std::vector<Node> unknown_values() {
     std::vector<Node> v = {mk_uint(7), mk_nint(1000), mk_tstr("unknown"), mk_bstr(std::string(30, 'z')), mk_array(), mk_map(), mk_array({mk_uint(1), mk_array({mk_tstr("n")})}),
                            mk_map({mk_uint(0), mk_map({mk_nint(0), mk_bool(false)})}), mk_tag(1, mk_uint(1363896240)), mk_tag(32, mk_array({mk_tstr("u")})),
-                           mk_float(25, 0x3c00), mk_float(26, 0x47c35000), mk_float(27, 0x3ff199999999999aULL), mk_simple(22), mk_bool(true)};
+                           mk_float(25, 0x3c00), mk_float(26, 0x47c35000), mk_float(27, 0x3ff199999999999aULL), mk_simple(22), mk_bool(true),
+                           mk_simple(32), mk_simple(255), mk_simple(0), mk_simple(23), mk_array({mk_simple(100), mk_uint(1)}), mk_tag(1, mk_simple(200)), mk_tag(0x100000000ULL, mk_float(25, 0x7e00))};   // two-byte simple values f8 NN, also nested
     { Node a = mk_array({mk_uint(1), mk_uint(2)}); a.indef = true; v.push_back(a); }
     { Node m = mk_map({mk_tstr("k"), mk_uint(2)}); m.indef = true; v.push_back(m); }
     { Node s; s.major = 3; s.indef = true; s.ai = 31; s.kids = {mk_tstr("ab"), mk_tstr("c")}; s.bytes = "abc"; v.push_back(s); }
